@@ -248,7 +248,7 @@ impl AnySection for E3Section {
         let mut verdicts = vec![];
         for _ in 0..2 {
             let (bodies, obs) = sec.make(&fx);
-            let ex = run_schedule(bodies, choices.clone(), obs, Duration::from_secs(20));
+            let ex = run_schedule(bodies, choices.clone(), obs, Duration::from_secs(300));
             let o = judge(&sc, &fx, &expected, &ex);
             verdicts.push((o.fail.as_ref().map(|f| f.key.clone()), ex.schedule()));
             if verdicts.len() == 2 {
@@ -288,7 +288,7 @@ impl AnySection for E3Section {
             let mut v = vec![];
             for _ in 0..2 {
                 let (b, o) = self.make(&fx);
-                let ex = run_schedule(b, vec![], o, Duration::from_secs(20));
+                let ex = run_schedule(b, vec![], o, Duration::from_secs(300));
                 v.push((ex.schedule(), ex.results.iter().map(|r| r.clone().ok()).collect::<Vec<_>>(), ex.observations.clone()));
             }
             if v[0] != v[1] {
@@ -323,9 +323,8 @@ impl AnySection for E3Section {
             true
         };
         let stats = explore(&|| self.make(&fx), self.sc.bound, 2_000_000, deadline, &mut check);
-        // free-running complement (SAMPLING, labelled as such): the same bodies on real threads without the
-        // scheduler, released together; catches anything the cooperative hand-offs could mask. A mismatch is
-        // still a real misbehaviour of the real code and is reported, but nothing is claimed from its silence.
+        // free-running complement (SAMPLING, labelled as such, never a verdict): the same bodies on real threads without
+        // the scheduler, released together; a self-test that the explorer owns the nondeterminism of the scenario.
         let free_runs = if rep.cfg.thorough() { 200 } else { 25 };
         let mut free_bad = 0u64;
         for _ in 0..free_runs {
@@ -345,21 +344,24 @@ impl AnySection for E3Section {
                 match h.join() {
                     Ok(Ok(v)) if v == expected[t] => {}
                     other => {
+                        // Not a verdict: an uncontrolled run cannot be replayed, and a verdict of this check is a schedule that
+                        // fails every time. A mismatch here means the explorer does not own all the nondeterminism of the
+                        // scenario (something is shared outside the RwLock operations it interleaves): the check cannot decide
+                        // and says so (exit 2).
                         free_bad += 1;
-                        rep.add_violation(
-                            &self.sc.name,
-                            json!({"scenario": self.sc, "choices": [], "schedule": "free-running (uncontrolled)"}),
-                            Fail {
-                                key: format!("{}:{:?}:free-running-result-differs", self.sc.name, self.sc.scheme),
-                                expected: format!("thread {t} returns the sequential bytes"),
-                                observed: format!("{:?}", other.map(|r| r.map(|_| "different bytes"))),
-                            },
-                        );
+                        if free_bad == 1 {
+                            rep.machinery_error(format!(
+                                "{}:{:?}: an UNCONTROLLED run of the scenario bodies gave thread {t} a result no explored schedule gives ({:?}): the scheduler does not own all nondeterminism of this scenario",
+                                self.sc.name,
+                                self.sc.scheme,
+                                other.map(|r| r.map(|_| "different bytes"))
+                            ));
+                        }
                     }
                 }
             }
         }
-        rep.observe(format!("free-running complement (sampling, not exhaustive): {} uncontrolled runs per scenario, all thread results equal to the sequential ones unless a violation is listed", free_runs));
+        rep.observe(format!("free-running complement (sampling, not exhaustive): {} uncontrolled runs per scenario, a thread result that differs from the sequential one is a machinery error (uncontrolled nondeterminism), never a verdict", free_runs));
         let _ = free_bad;
         rep.evaluations.fetch_add(executions, std::sync::atomic::Ordering::Relaxed);
         rep.steps.fetch_add(executions, std::sync::atomic::Ordering::Relaxed);
